@@ -135,7 +135,7 @@ def run_roundtrip(case, ctx):
     ctx.label(f"wrapper={wrapper}")
     ctx.label(f"obs={spec.get('obs')}")
     kinds = [o[0] + (":" + o[1] if o[0] == "mutate" else "") for o in case["history"]]
-    arch_mut = any(k == "mutate:arch" for k in kinds)
+    arch_mut = any(k in ("mutate:arch", "mutate:act") for k in kinds)
     learned_after = False
     seen_mut = False
     for k in kinds:
@@ -171,9 +171,10 @@ def rt_strategy(draw, tier):
     if spec["algo"] in ag.SINGLE_DISCRETE + ag.SINGLE_CONT + ag.ONPOLICY and (
             spec["obs"] in ("vector", "image") or (spec["obs"] == "dict" and spec["obsv"] % 3 != 1)):
         wrapper = draw(st.sampled_from(["none", "none", "rsnorm"]))
-    h = draw(hist.history_strategy(3 if tier == "quick" else 8, kinds=("learn", "mutate", "clone")))
+    h = draw(hist.history_strategy(3 if tier == "quick" else 8, kinds=("learn", "mutate", "clone", "act")))
     if draw(st.integers(0, 9)) < 6:  # make sure saved architectures differ from the defaults and targets lag
-        h = h[:2] + [["mutate", "arch", draw(st.integers(0, 999))]] + h[2:3] + [["learn", draw(st.integers(0, 999))]]
+        kind = draw(st.sampled_from(["arch", "arch", "act", "param", "rl_hp"]))
+        h = h[:2] + [["mutate", kind, draw(st.integers(0, 999))]] + h[2:3] + [["learn", draw(st.integers(0, 999))]]
     return {"spec": spec, "wrapper": wrapper, "history": h,
             "paths": draw(st.sampled_from([["load_classmethod"], ["load_checkpoint"], ["load_classmethod", "load_checkpoint"]])),
             "fitness": draw(st.lists(st.integers(-3, 3), max_size=3)),
